@@ -49,6 +49,7 @@ type resolver struct {
 	c     *Ctx
 	seen  map[resKey]bool
 	steps int
+	dyn   bool // resolve parameters of function literals kept in struct fields through the calls made via those fields
 	heap  bool // resolve fields of objects reached through pointers by the stores to that field anywhere (closed struct types only)
 }
 
@@ -175,6 +176,35 @@ func (r *resolver) res(v ssa.Value, fs []*types.Var, depth int, out *[]apath) {
 			}
 		}
 		sites := p.callers[fn]
+		if r.dyn && idx >= 0 && (p.roots == nil || !p.roots[fn]) {
+			// every call site of the whole-program (VTA) call graph: function values kept in fields,
+			// bound methods, interface methods
+			n := 0
+			for _, s := range p.dynCallers(fn) {
+				args := s.Common().Args
+				if s.Common().IsInvoke() {
+					// receiver is Common().Value, the remaining parameters follow
+					if idx == 0 {
+						n++
+						r.res(s.Common().Value, fs, depth+1, out)
+					} else if idx-1 < len(args) {
+						n++
+						r.res(args[idx-1], fs, depth+1, out)
+					}
+					continue
+				}
+				if idx < len(args) {
+					n++
+					r.res(args[idx], fs, depth+1, out)
+				}
+			}
+			if n > 0 {
+				return
+			}
+			if fn.Synthetic != "" {
+				return // a wrapper nobody calls contributes no value
+			}
+		}
 		// bound-method / closure invocations through Once.Do etc. carry no arguments
 		if idx < 0 || len(sites) == 0 || (p.roots != nil && p.roots[fn]) {
 			emit(v)
@@ -250,7 +280,7 @@ func (r *resolver) resPtr(ptr ssa.Value, fs []*types.Var, depth int, out *[]apat
 	default:
 		// pointer value: resolve where the pointer comes from; the path continues from the pointee
 		var ptrs []apath
-		sub := &resolver{c: r.c, seen: r.seen, steps: r.steps, heap: r.heap}
+		sub := &resolver{c: r.c, seen: r.seen, steps: r.steps, heap: r.heap, dyn: r.dyn}
 		sub.res(ptr, nil, depth+1, &ptrs)
 		r.steps = sub.steps
 		for _, pp := range ptrs {
@@ -708,4 +738,55 @@ func (c *Ctx) closedField(f *types.Var) bool {
 		}
 	}
 	return c.closedFields[f]
+}
+
+// fieldCallSites: fn is a function literal whose only use is being stored into struct fields;
+// returns the calls made through those fields (its possible dynamic call sites).
+func (c *Ctx) fieldCallSites(fn *ssa.Function) ([]ssa.CallInstruction, bool) {
+	p := c.P
+	mcs := p.closure[fn]
+	if len(mcs) == 0 {
+		return nil, false
+	}
+	fields := map[*types.Var]bool{}
+	for _, mc := range mcs {
+		for _, ref := range *mc.Referrers() {
+			switch x := ref.(type) {
+			case *ssa.DebugRef:
+			case *ssa.Store:
+				fa, ok := x.Addr.(*ssa.FieldAddr)
+				if !ok || x.Val != ssa.Value(mc) {
+					return nil, false
+				}
+				fields[fieldOfAddr(fa)] = true
+			default:
+				return nil, false
+			}
+		}
+	}
+	var out []ssa.CallInstruction
+	for f := range fields {
+		if !c.closedField(f) {
+			return nil, false
+		}
+		for _, u := range usesOfKind(p.uses(f), "call") {
+			if ci, ok := u.At.(ssa.CallInstruction); ok {
+				out = append(out, ci)
+			}
+		}
+	}
+	return out, len(out) > 0
+}
+
+// originsDyn: originsOf that also follows parameters of function literals stored in struct
+// fields to the arguments of the calls made through those fields.
+func (c *Ctx) originsDyn(v ssa.Value, fields ...*types.Var) []apath {
+	r := &resolver{c: c, seen: map[resKey]bool{}, dyn: true}
+	var out []apath
+	if _, isPtr := v.Type().Underlying().(*types.Pointer); isPtr && len(fields) > 0 {
+		r.resPtr(v, fields, 0, &out)
+	} else {
+		r.res(v, fields, 0, &out)
+	}
+	return dedupPaths(out)
 }
